@@ -2,6 +2,7 @@ package main
 
 import (
 	"fmt"
+	"math/big"
 	"go/constant"
 	"go/types"
 	"math"
@@ -276,6 +277,10 @@ func (c *Ctx) sortOf(t types.Type) string {
 		case u.Info()&types.IsBoolean != 0:
 			return sBool
 		case u.Info()&types.IsInteger != 0:
+			if c.bv {
+				w, _ := bvWidth(t)
+				return bvSort(w)
+			}
 			return sInt
 		case u.Info()&types.IsFloat != 0:
 			return sF
@@ -382,6 +387,10 @@ func (c *Ctx) zero(t types.Type) string {
 			return c.floatLit(0)
 		case u.Info()&types.IsString != 0:
 			return c.strLit("")
+		}
+		if c.bv && u.Info()&types.IsInteger != 0 {
+			w, _ := bvWidth(t)
+			return bvLit(big.NewInt(0), w)
 		}
 		return "0"
 	case *types.Slice:
@@ -497,6 +506,11 @@ func (c *Ctx) constTerm(v constant.Value, t types.Type) string {
 			return "false"
 		case u.Info()&types.IsInteger != 0:
 			iv := constant.ToInt(v)
+			if c.bv {
+				w, _ := bvWidth(t)
+				bi, _ := new(big.Int).SetString(iv.ExactString(), 10)
+				return bvLit(bi, w)
+			}
 			return numStr(iv.ExactString())
 		case u.Info()&types.IsFloat != 0:
 			f, _ := constant.Float64Val(constant.ToFloat(v))
@@ -546,7 +560,7 @@ const preludeInt = `
 
 // axioms of the prelude; each is (name, text). Included in every query.
 var preludeAxioms = [][2]string{
-	{"slen-nonneg", "(forall ((s Str)) (! (>= (slen s) 0) :pattern ((slen s))))"},
+	{"slen-nonneg", "(forall ((s Str)) (! (and (>= (slen s) 0) (< (slen s) 281474976710656)) :pattern ((slen s))))"},
 	{"scat-len", "(forall ((a Str) (b Str)) (! (= (slen (scat a b)) (+ (slen a) (slen b))) :pattern ((scat a b))))"},
 	{"scat-at", "(forall ((a Str) (b Str) (i Int)) (! (= (sat (scat a b) i) (ite (< i (slen a)) (sat a i) (sat b (- i (slen a))))) :pattern ((sat (scat a b) i))))"},
 	{"ssub-len", "(forall ((s Str) (i Int) (j Int)) (! (=> (and (<= 0 i) (<= i j) (<= j (slen s))) (= (slen (ssub s i j)) (- j i))) :pattern ((ssub s i j))))"},
@@ -606,6 +620,10 @@ func (o *Obligation) render() string {
 }
 
 const preludeBV = `
-(define-sort I64 () (_ BitVec 64))
 (define-sort F () (_ FloatingPoint 11 53))
+(declare-sort Str 0)
+(declare-fun slen (Str) Int)
+(declare-fun sat (Str Int) Int)
+(declare-datatypes ((Slice 0)) (((mk_slice (sl_ref Int) (sl_off Int) (sl_len Int) (sl_cap Int)))))
+(declare-datatypes ((Iface 0)) (((mk_iface (if_tag Int) (if_val Int)))))
 `
